@@ -459,6 +459,20 @@ def c06(v, tier, seed):
         if scn == "create" and ls is lens:
             sub = vecs if len(vecs) <= 6000 else random.Random(11).sample(vecs, 6000)
             for_each_config(v, wd, lambda ex2, tag: can.replay(v, ex2, sub, rnd, places=[("E", 0)], tag=tag)["executed"])
+    # growth (AcfContainer.tla): TSCF / NTSCF containers with several mixed full / brief messages, offsets from the lengths read back
+    import container
+    with v.growth_scope("AcfContainer.tla (control-format container with several mixed ACF-CAN messages)"):
+        for ctrls, mx, ls, nbg in ((("Tscf", "Ntscf"), 2, (0, 1, 2, 3, 4, 5, 8), 1),) + (() if q else ((("Tscf", "Ntscf"), 3, (0, 3, 4, 8, 64), 1), (("Ntscf",), 2, tuple(range(0, 17)) + (63, 64), 2))):
+            res = run_tlc("AcfContainer", container.cfg(ctrls, mx, ls, nbg), wd)
+            v.add_tlc("AcfContainer/max%d" % mx, res)
+            if not res.ok: raise Infra("AcfContainer violates its own theorem:\n%s" % ((res.violation or "")[-1500:]))
+            st = container.replay(v, ex, res.emitted, rnd)
+            v.cov["evaluations"] += st["executed"]
+            v.cov.setdefault("containers_replayed", 0); v.cov["containers_replayed"] += len(res.emitted)
+            if res.emitted: v.sample({"tlc_container": {k: res.emitted[len(res.emitted) // 2][k] for k in ("ctrl", "msgs", "used")}})
+            if mx == 2 and len(ctrls) == 2:
+                sub = res.emitted if len(res.emitted) <= 1500 else random.Random(13).sample(res.emitted, 1500)
+                for_each_config(v, wd, lambda ex2, tag: container.replay(v, ex2, sub, rnd, places=[("E", 0)], tag=tag)["executed"])
     cmds, evs = can.drive(rnd, 6000 if q else 600000)
     outs = ex.run_robust(cmds)
     done = can.finish(evs, outs, v)
